@@ -40,6 +40,7 @@ pub struct Swarm {
     pub crlf: u32,       // per-mille chance that a document uses CRLF
     pub cross_alias: u32, // per-mille chance that an alias refers to a previous document's anchor
     pub long_scalar: u32, // per-mille chance of capacity-sized words
+    pub deep: u32,        // per-mille chance of a deep-nesting text (W7)
 }
 
 impl Swarm {
@@ -62,6 +63,7 @@ impl Swarm {
             crlf: *r.pick(&[0, 0, 50, 500]),
             cross_alias: *r.pick(&[0, 100, 300, 700]),
             long_scalar: *r.pick(&[0, 30, 100, 300]),
+            deep: *r.pick(&[0, 2, 10, 40]),
         }
     }
 }
@@ -135,6 +137,11 @@ impl<'a> Gen<'a> {
 
     /// Draw one text according to the swarm weights. Returns (generator name, text).
     pub fn text(&mut self) -> (&'static str, String) {
+        if self.r.below(1000) < u64::from(self.sw.deep) {
+            let mut t = self.deep_nest();
+            truncate_chars(&mut t, 8192);
+            return ("W7-deepnest", t);
+        }
         let total: u32 = self.sw.w.iter().sum();
         let mut k = self.r.below(u64::from(total)) as u32;
         let mut which = 0;
@@ -160,6 +167,47 @@ impl<'a> Gen<'a> {
         };
         truncate_chars(&mut t, 8192);
         (name, t)
+    }
+
+    /// W7: nesting around the limits that matter (the u8 flow-level counter, a few hundred
+    /// levels of block nesting), optionally closed, optionally with content.
+    pub fn deep_nest(&mut self) -> String {
+        let d = *self.r.pick(&[63usize, 64, 127, 128, 200, 254, 255, 256, 257, 258, 300, 511, 512, 1000, 1500]);
+        let open = *self.r.pick(&["[", "{", "[{", "{a: ", "[{a: ", "[a, ", "- ", "? ", "- ? ", "- - k: ", "- [", "? {"]);
+        let mut s = String::new();
+        if self.r.chance(1, 6) {
+            s.push_str("--- ");
+        }
+        for _ in 0..d {
+            s.push_str(open);
+        }
+        match self.r.below(4) {
+            0 => {}
+            1 => s.push('a'),
+            2 => {
+                let w = self.word();
+                s.push_str(&w);
+            }
+            _ => s.push_str("&x y"),
+        }
+        if self.r.chance(1, 2) {
+            // close what can be closed
+            let close: String = open.chars().rev().filter_map(|c| match c {
+                '[' => Some(']'),
+                '{' => Some('}'),
+                _ => None,
+            }).collect();
+            if !close.is_empty() {
+                let k = if self.r.chance(1, 4) { self.r.usize(d + 1) } else { d };
+                for _ in 0..k {
+                    s.push_str(&close);
+                }
+            }
+        }
+        if self.r.chance(1, 3) {
+            s.push('\n');
+        }
+        s
     }
 
     pub fn corpus_doc(&mut self) -> String {
